@@ -27,6 +27,10 @@ leave-lock-only-on-success: in the smart lock handlers no failure response is re
 leave_lock_in_place().
 cache-clear-siblings-agree: RemoteBranch._clear_cached_state_of_remote_branch_only resets every own cache attribute
 that _clear_cached_state resets (and calls the base class part when that one does).
+fallback-forwards-parameters (third round): every Remote* method that calls the same-named method of its self._real_* object passes
+all of its own parameters (directly, through a derived local, or through * / **); five tabled exceptions with reasons.
+handler-lock-given-back (third round): for the five request handlers that lock and unlock one object within a request (table),
+no path from the lock call to a return or a raise avoids the unlock (CFG with exception edges).
 Does not decide: behavioural equivalence of remote and local operations (not applicable to static analysis).
 """
 VERB_RE = re.compile(rb"^(Branch|BzrDir|BzrDirFormat|Repository|PackRepository|Transport|VersionedFileRepository)\.[A-Za-z_0-9.]+$")
@@ -132,7 +136,63 @@ def run(ctx):
     ctx.check("cache-clear-siblings-agree", f"{RM}:RemoteBranch._clear_cached_state_of_remote_branch_only", rf_ <= rp_ and (sp_ or not sf_), f"caches reset by _clear_cached_state {sorted(rf_)} are reset by the remote-only sibling {sorted(rp_)} (base class part: {sp_})", construct=str(sorted(rf_ - rp_)), message=f"_clear_cached_state_of_remote_branch_only leaves {sorted(rf_ - rp_)} cached although _clear_cached_state resets it: after an operation that changes the underlying branch through _real_branch (pull, VFS fallbacks) under a lock that was already held, the RemoteBranch answers from the stale cache where a local branch answers with the new value (e.g. tags merged by pull are missing)")
     ctx.require(bool(rf_), f"{RM}:RemoteBranch._clear_cached_state resets no own cache attribute (hand-confirmed: _tags_bytes)")
 
+    # ---- a Remote* method that falls back to the same method of its real object hands over every parameter ------------
+    from ..astutil import call_recv
+
+    #: wrapper parameter deliberately not handed over, with the reason (confirmed by reading)
+    NOT_FORWARDED = {
+        ("RemoteRepository.lock_write", "token"): "the real repository is locked with self._lock_token, the token just obtained or checked against `token`",
+        ("RemoteRepository.lock_write", "_skip_rpc"): "wrapper-only switch (the RPC was already made by the branch lock)",
+        ("RemoteBranch.lock_write", "token"): "the real branch is locked with self._lock_token, obtained from `token` by the RPC",
+        ("RemoteBzrDir.get_branches", "possible_transports"): "BzrDir.get_branches() takes no parameters",
+        ("RemoteBzrDir.get_branches", "ignore_fallbacks"): "BzrDir.get_branches() takes no parameters",
+    }
+    n_del = 0
+    for q, f in repo.module(RM).functions().items():
+        if "." not in q or not q.split(".")[0].startswith("Remote"):
+            continue
+        name = q.split(".")[-1]
+        params = [a.arg for a in f.args.args[1:]] + [a.arg for a in f.args.kwonlyargs]
+        for c in calls_in(f):
+            if call_attr(c) != name or not (call_recv(c) or "").startswith("self._real_"):
+                continue
+            n_del += 1
+            if any(isinstance(a, ast.Starred) for a in c.args) or any(k.arg is None for k in c.keywords):
+                continue
+            used = {n.id for a in list(c.args) + [k.value for k in c.keywords] for n in ast.walk(a) if isinstance(n, ast.Name)}
+            # a parameter may be handed over through a local derived from it
+            derived = {norm(t) for st in walk_own(f) if isinstance(st, ast.Assign) for t in st.targets if isinstance(t, ast.Name) and any(isinstance(n, ast.Name) and n.id in params for n in ast.walk(st.value))}
+            missing = [p_ for p_ in params if p_ not in used and (q, p_) not in NOT_FORWARDED and not any(d in used and any(isinstance(n, ast.Name) and n.id == p_ for st in walk_own(f) if isinstance(st, ast.Assign) and any(norm(t) == d for t in st.targets) for n in ast.walk(st.value)) for d in derived)]
+            ctx.check("fallback-forwards-parameters", f"{RM}:{q}", not missing, f"{q} hands all of its parameters to {call_recv(c)}.{name}(...)", construct=f"L{c.lineno}: missing {missing}", message=f"{q} accepts {missing} but does not pass {'it' if len(missing) == 1 else 'them'} to {call_recv(c)}.{name}(...): through a smart server URL the operation runs with the default instead of the caller's value (the local branch/repository honours it) — results and the stored state differ from the same call on the local path")
+    ctx.require(n_del >= 60, f"{RM}: only {n_del} same-name fallbacks to the real object found (hand-confirmed: 78)")
+
+    # ---- a lock a request handler takes for the duration of the request is given back on every way out ------------------
+    from ..cfg import build_cfg
+
+    #: (file, handler method, locked object) — the handlers that lock and unlock the same object within one request
+    #: (confirmed by reading; the two streaming handlers keep their lock for the body generator and are not in this table)
+    TEMP_LOCKS = [
+        ("breezy/bzr/smart/branch.py", "SmartServerBranchRequestLockWrite.do_with_branch", "branch.repository"),
+        ("breezy/bzr/smart/branch.py", "SmartServerBranchRequestUnlock.do_with_branch", "branch"),
+        ("breezy/bzr/smart/repository.py", "SmartServerRepositoryLockWrite.do_repository_request", "repository"),
+        ("breezy/bzr/smart/repository.py", "SmartServerRepositoryUnlock.do_repository_request", "repository"),
+        ("breezy/bzr/smart/repository.py", "SmartServerRepositoryReconcile.do_repository_request", "repository"),
+    ]
+    for rel_, q_, recv_ in TEMP_LOCKS:
+        f_ = repo.func(rel_, q_)
+        g_ = build_cfg(f_)
+        lk_ = [n.id for n in g_.nodes if any(call_attr(c) in ("lock_write", "lock_read") and call_recv(c) == recv_ for c in n.calls())]
+        ul_ = [n.id for n in g_.nodes if any(call_attr(c) == "unlock" and call_recv(c) == recv_ for c in n.calls())]
+        ctx.require(bool(lk_), f"{rel_}:{q_}: {recv_}.lock_write()/lock_read() not found")
+        starts_ = [b for i in lk_ for (b, l) in g_.edges(i) if l != "X"]
+        esc = {g_.exit, g_.raise_exit} & g_.reach(starts_, avoid=set(ul_), include_src=True)
+        how = " and ".join(sorted("a normal return" if e == g_.exit else "an exception" for e in esc))
+        wit = g_.path(starts_, list(esc), avoid=set(ul_)) if esc else None
+        ctx.check("handler-lock-given-back", f"{rel_}:{q_}", bool(ul_) and not esc, f"every way out of the handler after {recv_}.lock_*() passes {recv_}.unlock()", construct=f"{recv_}: leaves through {how}" if esc else "", witness=g_.show_path(wit) if wit else None, message=f"{q_} can leave through {how} with its own lock on {recv_} still held (e.g. when a later lock is refused and the handler answers with a failure response): the server drops a write-locked object, a physical lock stays on disk and every later lock attempt — remote or local — is refused until break-lock; the same sequence on the local path leaves nothing locked")
+
 MUTANTS = [
+    Mutant("repository lock of Branch.lock_write given back only on success", "breezy/bzr/smart/branch.py", "            try:\n                branch_token = branch.lock_write(token=branch_token).token\n            finally:\n                # this leaves the repository with 1 lock\n                branch.repository.unlock()\n", "            branch_token = branch.lock_write(token=branch_token).token\n            branch.repository.unlock()\n", expect="handler-lock-given-back"),
+    Mutant("RemoteBranch.push drops the tag selector", RM, "                _override_hook_source_branch=self,\n                tag_selector=tag_selector,\n", "                _override_hook_source_branch=self,\n", expect="fallback-forwards-parameters"),
     Mutant("repository lock left in place before the branch lock is taken", "breezy/bzr/smart/branch.py", "            repo_token = branch.repository.lock_write(token=repo_token).repository_token\n            try:\n                branch_token = branch.lock_write(token=branch_token).token\n", "            repo_token = branch.repository.lock_write(token=repo_token).repository_token\n            if repo_token is not None:\n                branch.repository.leave_lock_in_place()\n            try:\n                branch_token = branch.lock_write(token=branch_token).token\n", expect="leave-lock-only-on-success"),
     Mutant("remote-only cache clearing keeps the tags", RM, "        super()._clear_cached_state()\n        self._tags_bytes = None\n\n    @property\n    def control_files", "        super()._clear_cached_state()\n\n    @property\n    def control_files", expect="cache-clear-siblings-agree"),
     Mutant("branch lock keeps the previous release mode", RM, "            if token is not None:\n                self._leave_lock = True\n            else:\n                self._leave_lock = False\n            self._lock_mode = \"w\"\n            self._lock_count = 1\n        elif self._lock_mode == \"r\":\n            raise errors.ReadOnlyError(self)\n        else:\n            if token is not None:\n                # A token was given to lock_write, and we're relocking, so\n                # check that the given token actually matches the one we\n                # already have.\n                if token != self._lock_token:\n                    raise errors.TokenMismatch(token, self._lock_token)\n            self._lock_count += 1\n            # Re-lock the repository too.\n            self.repository.lock_write(self._repo_lock_token)", "            if token is not None:\n                self._leave_lock = True\n            self._lock_mode = \"w\"\n            self._lock_count = 1\n        elif self._lock_mode == \"r\":\n            raise errors.ReadOnlyError(self)\n        else:\n            if token is not None:\n                # A token was given to lock_write, and we're relocking, so\n                # check that the given token actually matches the one we\n                # already have.\n                if token != self._lock_token:\n                    raise errors.TokenMismatch(token, self._lock_token)\n            self._lock_count += 1\n            # Re-lock the repository too.\n            self.repository.lock_write(self._repo_lock_token)", expect="lock-release-mode-reinitialised"),
